@@ -776,6 +776,9 @@ def builtin(ev, name, args, kwargs, lineno, env):
         if len(args) == 2 and isinstance(args[0], E.S.ClassRef) and isinstance(args[1], E.S.ClassRef):
             # super(Start, cls): lookup continues after Start in the MRO of cls
             return SuperProxy(args[1], args[0].name)
+        if len(args) == 2 and isinstance(args[0], E.S.ClassRef) and isinstance(args[1], E.Obj) and args[1].cls is not None:
+            # super(Start, self): instance methods looked up after Start in the MRO of self's class
+            return SuperProxy(args[1].cls, args[0].name, recv=args[1])
         if args:
             raise Unsupported("super() with these arguments")
         cur = env.get("cls") if "cls" in _all_vars(env) else None
@@ -826,9 +829,10 @@ class SuperProxy:
     """super() inside a classmethod: attribute lookup continues after the defining class in the
     method resolution order of the receiver class"""
 
-    def __init__(self, cls_value, defining):
+    def __init__(self, cls_value, defining, recv=None):
         self.cls_value = cls_value
         self.defining = defining
+        self.recv = recv
 
     def getattr_(self, ev, attr, lineno):
         from .classes import mro
@@ -839,6 +843,8 @@ class SuperProxy:
         for c in chain[names.index(self.defining) + 1:]:
             qn = "%s.%s" % (c.name, attr)
             if qn in c.module.functions:
+                if self.recv is not None:
+                    return E.BoundRepoMethod(self.recv, c.module.functions[qn])
                 return E.ClassMethodRef(self.cls_value, c.module.functions[qn])
         raise E._Raise(E.ExcVal("AttributeError", (attr,)))
 
